@@ -37,9 +37,9 @@ func (b *c18B) name(n string) {
 		b.els = append(b.els, c18El{K: "F", S: hx(n)})
 	}
 }
-func (b *c18B) dir(n string)  { b.name(n); b.els = append(b.els, b.meta(sIFDIR|0755)) }
-func (b *c18B) bye()          { b.els = append(b.els, c18El{K: "G"}) }
-func (b *c18B) raw(k string)  { b.els = append(b.els, c18El{K: k}) }
+func (b *c18B) dir(n string) { b.name(n); b.els = append(b.els, b.meta(sIFDIR|0755)) }
+func (b *c18B) bye()         { b.els = append(b.els, c18El{K: "G"}) }
+func (b *c18B) raw(k string) { b.els = append(b.els, c18El{K: k}) }
 func (b *c18B) file(n, data string) {
 	b.name(n)
 	b.els = append(b.els, b.meta(sIFREG|0644), c18El{K: "P", S: hx(data)})
@@ -150,9 +150,43 @@ func c18Corpus() []*c18Case {
 		b.file("x", "PWNED")
 	})
 	// the first entry is a link / a device at the destination path itself
-	add("corpus-root-link", func(b *c18B) { b.link(c18None, "outside"); b.file("x", "PWNED"); b.dir("sub"); b.file("y", "PWNED"); b.bye() })
+	add("corpus-root-link", func(b *c18B) {
+		b.link(c18None, "outside")
+		b.file("x", "PWNED")
+		b.dir("sub")
+		b.file("y", "PWNED")
+		b.bye()
+	})
 	add("corpus-root-link-abs", func(b *c18B) { b.link(c18None, "@SB@/outside"); b.file("x", "PWNED") })
 	add("corpus-root-device", func(b *c18B) { b.dev(c18None, sIFIFO|0644); b.file("x", "PWNED") })
+	// the destination does not exist yet (or is a file) and the root entry is not a directory
+	for _, dest := range []string{"absent", "file", ""} {
+		dest := dest
+		addD := func(shape string, f func(b *c18B)) {
+			n := len(out)
+			add(shape, f)
+			for _, c := range out[n:] {
+				c.Dest = dest
+			}
+		}
+		addD("corpus-leafroot-link", func(b *c18B) { b.link(c18None, "outside"); b.file("x", "PWNED") })
+		addD("corpus-leafroot-link-abs", func(b *c18B) { b.link(c18None, "@SB@/outside"); b.dir("sub"); b.file("y", "PWNED"); b.bye() })
+		addD("corpus-leafroot-link-up", func(b *c18B) { b.link(c18None, ".."); b.link("sentinel", "gone") })
+		addD("corpus-leafroot-fifo", func(b *c18B) { b.dev(c18None, sIFIFO|0644); b.file("x", "PWNED") })
+		addD("corpus-leafroot-file", func(b *c18B) { b.file(c18None, "single"); b.file("x", "PWNED") })
+		addD("corpus-leafroot-only", func(b *c18B) { b.link(c18None, "outside/x") })
+		addD("corpus-dirroot", func(b *c18B) { b.dir(c18None); b.file("x", "fine"); b.link("s", "../outside"); b.bye() })
+		addD("corpus-noroot", func(b *c18B) { b.file("x", "no root entry"); b.link("s", "../outside") })
+	}
+	// one name with a history: directory, then file, then link (what a deferred second pass over directories would follow)
+	add("corpus-name-history", func(b *c18B) {
+		b.dir(c18None)
+		b.els = append(b.els, c18El{K: "F", S: hx("a")}, c18El{K: "E", Mode: sIFDIR | 0700, UID: 1000, GID: 1000, MTime: 1300000000})
+		b.bye()
+		b.file("a", "was a directory")
+		b.els = append(b.els, c18El{K: "F", S: hx("a")}, c18El{K: "E", Mode: sIFLNK | 0777, UID: 1000, GID: 1000, MTime: 1300000001}, c18El{K: "S", S: hx("../outside")})
+		b.bye()
+	})
 	// link then the same name
 	for k := 0; k < 5; k++ {
 		k := k
@@ -182,6 +216,12 @@ func c18Gen(rng *vh.Rand) *c18Case {
 	default:
 		c.Via = "cli-index"
 	}
+	switch v := rng.Intn(25); {
+	case v < 3:
+		c.Dest = "absent"
+	case v < 5:
+		c.Dest = "file"
+	}
 	root := func() {
 		if rng.Chance(9, 10) {
 			b.dir(c18None)
@@ -199,7 +239,38 @@ func c18Gen(rng *vh.Rand) *c18Case {
 			b.bye()
 		}
 	}
-	switch rng.Intn(13) {
+	switch rng.Intn(15) {
+	case 14: // one name, several entries of changing kinds
+		c.Shape = "name-history"
+		root()
+		d := descend()
+		n := b.pick([]string{"a", "s", "d"})
+		for i := 2 + rng.Intn(3); i > 0; i-- {
+			b.any(n, rng.Intn(5), b.pick(c18Targets))
+		}
+		if rng.Bool() {
+			b.file("x", "after")
+		}
+		close(d)
+	case 13: // the root entry is a file, link or device; more entries follow
+		c.Shape = "leaf-root"
+		if rng.Chance(1, 2) {
+			c.Dest = []string{"absent", "file"}[rng.Intn(2)]
+		}
+		for i := rng.Intn(2); i > 0; i-- {
+			b.bye()
+		}
+		switch rng.Intn(4) {
+		case 0:
+			b.file(c18None, "single")
+		case 1, 2:
+			b.link(c18None, b.pick(c18Targets))
+		case 3:
+			b.dev(c18None, []uint64{sIFIFO | 0644, sIFCHR | 0600}[rng.Intn(2)])
+		}
+		for i := rng.Intn(4); i > 0; i-- {
+			b.any(b.pick(c18PlainNames), rng.Intn(5), b.pick(c18Targets))
+		}
 	case 0:
 		c.Shape = "benign"
 		b.dir(c18None)
@@ -312,6 +383,7 @@ func c18Gen(rng *vh.Rand) *c18Case {
 		close(d)
 	case 7: // the destination holds content of an earlier extraction
 		c.Shape = "pre-existing"
+		c.Dest = ""
 		c.Pre = []c18Pre{{Path: "pre", Kind: "l", S: hx(b.pick(c18Targets[:20]))}, {Path: "d", Kind: "d"}, {Path: "d/l", Kind: "l", S: hx("../../outside")},
 			{Path: "f", Kind: "f", S: hx("old")}}
 		if rng.Bool() {
